@@ -27,7 +27,14 @@ where
 }
 
 pub fn run_history<M: Monitor>(case: &Case, mon: &mut M, out: &mut CaseOut) -> Result<(), Fail> {
+    run_history_opts(case, mon, out, false)
+}
+
+/// `no_active_takeover`: change_identity onto another address is skipped while the instance lists an
+/// active member there (claiming the address of a member one believes alive is outside C19's domain).
+pub fn run_history_opts<M: Monitor>(case: &Case, mon: &mut M, out: &mut CaseOut, no_active_takeover: bool) -> Result<(), Fail> {
     let mut runner = Runner::new(&case.setup);
+    runner.no_active_takeover = no_active_takeover;
     let codec = case.setup.codec;
     let keep = out.want_sample;
     let mut tail: std::collections::VecDeque<String> = std::collections::VecDeque::new();
@@ -83,7 +90,7 @@ where
     }
     fn exec(&self, case: &Case, out: &mut CaseOut) -> Result<(), Fail> {
         let mut mon = (self.mk)(&case.setup);
-        run_history(case, &mut mon, out)
+        run_history_opts(case, &mut mon, out, self.p.takeover_inactive_only)
     }
 }
 
